@@ -416,6 +416,38 @@ def _equality(run, repo, world, rx, folder, mod, kinds):
                     for (t, s3) in eq(I, s2, a, b):
                         if t is not False:
                             others.append((k2, t))
+        # a class that writes its own `!=` must make it the negation of
+        # `==` (Python derives it that way when __ne__ is not defined)
+        rne = c.lookup("__ne__")
+        if rne is not None and rne[1] not in ("attr", "class") and \
+                isinstance(rne[0], ClassInfo):
+            def ne(I, st, a, b):
+                res = []
+                for (v, s2) in I.call_fn(rne[2], rne[0], [b], {}, st,
+                                         self_=a, kind="inst"):
+                    if isinstance(v, Raise):
+                        res.append(("raise:%s" % v.exc, s2))
+                        continue
+                    for (t, e3, s3) in I.truth(v, {}, s2):
+                        res.append((t, s3))
+                return res
+            disagree = []
+            for k2 in kinds:
+                for (n1, n2) in ((1, 1), (1, 2)):
+                    I = Interp(world, rx, folder)
+                    st = State()
+                    for (a, s1) in build_const(I, st, kind, n1):
+                        for (b, s2) in build_const(I, s1, k2, n2):
+                            es = {t for (t, _s) in eq(I, s2, a, b)}
+                            ns = {t for (t, _s) in ne(I, s2, a, b)}
+                            if len(es) != 1 or len(ns) != 1 or \
+                                    list(es)[0] is list(ns)[0]:
+                                disagree.append((k2, n1, n2, sorted(
+                                    map(str, es)), sorted(map(str, ns))))
+            run.ob("R-ADDR-EQ", ADDR + kind + "#ne-is-not-eq", not disagree,
+                   "%s.__ne__ is not the negation of __eq__: (other kind, "
+                   "numbers, ==, !=) %s" % (kind, disagree[:3]),
+                   where(mod, c.node))
         run.ob("R-ADDR-EQ", ADDR + kind + "#other-kinds", not others,
                "%s compares equal (or fails) against other kinds: %s" % (
                    kind, others[:4]), where(mod, c.node), trivial=True)
